@@ -100,7 +100,11 @@ theorem inter_conj (hwf : p.WF) (hwf' : (p.withTerms ts).WF)
     funext a b
     have helim : ∀ c d, (p.withTerms ts).elim c d = p.elim c d := by
       intro c d
-      simp only [elim, equalEigs, hen]
+      have hclose : (p.withTerms ts).closeIn = p.closeIn := by
+        funext x y
+        simp only [closeIn, equalEigs, hen]
+        rfl
+      simp only [elim, sameLevel, hclose]
       rfl
     show (if p.selected idx.i then (p.withTerms ts).hadamard (fun a b => !(p.withTerms ts).elim a b) (p.conjM ts X)
         else p.conjM ts X) a b
@@ -115,7 +119,11 @@ theorem inter_conj (hwf : p.WF) (hwf' : (p.withTerms ts).WF)
     funext a b
     have helim : ∀ c d, (p.withTerms ts).elim c d = p.elim c d := by
       intro c d
-      simp only [elim, equalEigs, hen]
+      have hclose : (p.withTerms ts).closeIn = p.closeIn := by
+        funext x y
+        simp only [closeIn, equalEigs, hen]
+        rfl
+      simp only [elim, sameLevel, hclose]
       rfl
     show (if p.selected idx.i then (p.withTerms ts).hadamard (fun a b => (p.withTerms ts).elim a b) (p.conjM ts X)
         else 0) a b
